@@ -8,6 +8,19 @@ import numpy as np
 from common import (Ctx, LeanDriver, Property, dyadic, err_kind, list_s, listlist_s, rat_s, run_property)
 
 INT32_MAX = 2147483647
+# boundary seeds: None (unseeded) versus the legitimate seed 0 (falsy in Python), 1, the int32 limits and a seed beyond 32 bits
+BOUNDARY_SEEDS = [None, 0, 1, 2**31 - 2, 2**31 - 1, 2**32 + 5]
+
+
+def pick_seed(rng, hi):
+    r = rng.random()
+    if r < 0.2:
+        return None
+    if r < 0.45:
+        return 0
+    if r < 0.6:
+        return rng.choice(BOUNDARY_SEEDS[2:])
+    return rng.randint(1, hi)
 
 
 # ----------------------------------------------------------------------------- tagging RNG (mirrors Noise.tagK in Lean)
@@ -121,9 +134,20 @@ def gen_case(ctx: Ctx):
     chunks = [b - a for a, b in zip([0] + cuts, cuts + [n])]
     c = dict(shape=[n, h, w], values=[dyadic(rng, -1, 6, 2) for _ in range(n * h * w)], lazy=lazy, chunks=chunks if lazy else [n],
              dose=rng.choice([0.5, 1.0, 2.0, 4.0, [1.0, 2.0], [0.5, 1.0, 4.0], [2.0]]),
-             seed=rng.choice([None, rng.randint(0, 60), rng.randint(0, 60)]), samples=rng.choice([1, 1, 2, 3]),
+             seed=pick_seed(rng, 60), samples=rng.choice([1, 1, 2, 3]),
              chunk_size=rng.choice(["128 MB", "128 MB", "64 B", "160 B"]) if lazy else "128 MB", cls=rng.choice(["Images", "DiffractionPatterns"]))
     return c
+
+
+def boundary_cases():
+    """deterministic grid: every boundary seed x samples in {1, 2} x eager / lazy (one block, two blocks)"""
+    out = []
+    for seed in BOUNDARY_SEEDS:
+        for samples in (1, 2):
+            for lazy, chunks in ((False, [2]), (True, [2]), (True, [1, 1])):
+                out.append(dict(shape=[2, 1, 2], values=[0.5, 1.0, 3.0, -1.0], lazy=lazy, chunks=chunks, dose=2.0, seed=seed, samples=samples,
+                                chunk_size="128 MB", cls="Images"))
+    return out
 
 
 def model_line(c, chunks):
@@ -160,7 +184,8 @@ class C31(Property):
     ]
     assumptions = ["one ensemble axis on the measurement, base axes in one chunk (abTEM never chunks base axes)",
                    "unseeded multi-block lazy runs are not compared symbol for symbol (block evaluation order decides which entropy a block sees)"]
-    rule = ("random measurements (1-5 ensemble items, base 1-3 x 1-3, dyadic values incl. negatives), scalar or list doses, seed None/int, "
+    rule = ("deterministic grid over the boundary seeds (None, 0, 1, 2^31-2, 2^31-1, 2^32+5) x samples x eager/lazy, plus "
+            "random measurements (1-5 ensemble items, base 1-3 x 1-3, dyadic values incl. negatives), scalar or list doses, seed None/0/boundary/int, "
             "samples 1-3, eager or lazy with random item chunks and chunk-size configs that split the dose/sample axes; distinct = distinct case JSON")
 
     # ------------------------------------------------------------------ correspondence (tagging RNG)
@@ -168,8 +193,7 @@ class C31(Property):
         drv = LeanDriver(self.drive_file)
         cases, lines, impls = [], [], []
         with tagging_rng():
-            for _ in range(ctx.n(250, 5000)):
-                c = gen_case(ctx)
+            for c in boundary_cases() + [gen_case(ctx) for _ in range(ctx.n(250, 5000))]:
                 _State.entropy = 0
                 got = run_noise(c, case_array(c), c["lazy"])
                 chunks = got[2] if got[0] == "ok" else None
@@ -276,16 +300,21 @@ class C31(Property):
     def gen(self, ctx: Ctx):
         rng = ctx.rng
         out = []
+        for seed in BOUNDARY_SEEDS[1:]:  # every boundary seed (0 included) must be reproducible, eagerly and lazily, with and without a sample axis
+            for samples in (1, 2):
+                out.append(dict(kind="valid", shape=[2, 8, 8], signal=1.0, dose=16.0, seed=seed, samples=samples, negative=False, cls="Images"))
+                out.append(dict(kind="lazy", shape=[2, 8, 8], signal=1.0, dose=16.0, seed=seed, samples=samples, chunks=[2], chunk_size="128 MB",
+                                cls="Images"))
         for _ in range(ctx.n(30, 600)):
             out.append(dict(kind="valid", shape=[rng.randint(1, 4), rng.choice([8, 16]), rng.choice([8, 16])], signal=rng.choice([0.25, 1.0, 3.0]),
-                            dose=rng.choice([4.0, 16.0, 50.0, [4.0, 32.0]]), seed=rng.choice([None, rng.randint(0, 10**6)]),
+                            dose=rng.choice([4.0, 16.0, 50.0, [4.0, 32.0]]), seed=pick_seed(rng, 10**6),
                             samples=rng.choice([1, 1, 2, 3]), negative=rng.random() < 0.3, cls=rng.choice(["Images", "DiffractionPatterns"])))
         for _ in range(ctx.n(40, 800)):
             n = rng.choice([1, 2, 4, 4, 3])
             k = rng.choice([d for d in (1, 2, 4) if n % d == 0])
             chunks = [n // k] * k if rng.random() < 0.8 or n < 3 else [1, n - 1]
             out.append(dict(kind="lazy", shape=[n, 8, 8], signal=rng.choice([1.0, 3.0]), dose=rng.choice([4.0, 16.0, [4.0, 32.0]]),
-                            seed=rng.choice([None, rng.randint(0, 10**6), rng.randint(0, 10**6)]), samples=rng.choice([1, 1, 2, 3]),
+                            seed=pick_seed(rng, 10**6), samples=rng.choice([1, 1, 2, 3]),
                             chunks=chunks, chunk_size=rng.choice(["128 MB", "128 MB", "600 B"]), cls=rng.choice(["Images", "DiffractionPatterns"])))
         return out
 
